@@ -185,6 +185,35 @@ pub fn profile() -> Profile {
     p
 }
 
+/// Histories dense in proof-of-work mints, from a low recorded DOSC speed: coins of several ages are minted against in
+/// consecutive blocks, so that the speed recorded when a coin was created, the previous block's and the current one
+/// all differ; a fifth of the mints claim one unit above the reward.
+pub fn arb_mint_plan(p: &Profile) -> impl proptest::strategy::Strategy<Value = crate::plan::Plan> {
+    use crate::plan::{arb_cfg, arb_tx, kind_byte, Step};
+    use proptest::prelude::*;
+    let p2 = p.clone();
+    (arb_cfg(), 1usize..4, proptest::collection::vec((proptest::collection::vec((arb_tx(2, 3), 0u8..10), 1..4), any::<u32>()), 3..8)).prop_map(move |(mut cfg, lead, rounds)| {
+        cfg.fee_pool -= cfg.fee_pool % 3; // the low starting speed
+        let mut steps = vec![];
+        // a block of ordinary transactions first (coins to mint against), then a few empty blocks
+        steps.push(Step::Batch(vec![], 0));
+        for _ in 0..lead {
+            steps.push(Step::Seal(None));
+        }
+        for (txs, order) in rounds {
+            let mut b = vec![];
+            for (mut t, what) in txs {
+                t.kind = kind_byte(&p2, if what < 7 { 7 } else { 0 }, t.kind);
+                t.mutation = 255;
+                b.push(t);
+            }
+            steps.push(Step::Batch(b, order));
+            steps.push(Step::Seal(None));
+        }
+        crate::plan::Plan { cfg, steps }
+    })
+}
+
 pub fn run(ctx: &Ctx) -> (Outcome, String, Option<bool>) {
     let mut p = profile();
     if ctx.thorough() {
@@ -194,7 +223,22 @@ pub fn run(ctx: &Ctx) -> (Outcome, String, Option<bool>) {
     let out = super::hist::run_histories(ctx, "histories", p, ctx.scale(1200, 12000), C01::default);
     let mut out = out;
     out.absorb(crate::runner::run_sharded(ctx, "extreme-deposits", ctx.scale(600, 10000), super::c16::arb_extreme, |c, st, shard| super::c16::check_extreme(c, st, shard)));
-    let rule = "Second phase: C16's hand-built scenarios at the edge of the u128 liquidity counter (two fresh tokens, 2-6 deposits of 2^0..2^120 per side, withdrawals), checked for issuance: liquidity tokens handed out in a block <= rise of the pool's counter; coins + reserve of either token <= what was created. First phase: generated histories (2-14 steps quick / 2-40 thorough) on Custom02/Custom08/Testnet/Mainnet: batches of valid-by-construction transactions of every kind (normal, faucet, swap, deposit, withdraw, stake, new token) with dependent transactions inside a batch, shuffled orders, ~15% adversarial mutations, pool keys in canonical and 6 alternative spellings, proposer actions, restarts. Oracle: invariant on the real state read through the cfg(melstf_verif) view: per denomination, coins + pool reserves (+ fee pool + tips for MEL) after a batch <= before + faucet outputs/fee + the transaction's own new token + ERG of mints; after a seal <= before + growth of the pool's recorded liquidity (for liquidity tokens) + the TIP-909 subsidy + the unthrottled peg distance computed by RefSTF. Non-trivial = history with >=1 accepted non-faucet transaction and >=1 seal; distinct by the sequence of coin roots.".to_string();
+    {
+        let p3 = profile();
+        let prof3 = p3.clone();
+        out.absorb(crate::runner::run_sharded(
+            ctx,
+            "mint-histories",
+            ctx.scale(300, 4000),
+            move || arb_mint_plan(&prof3),
+            |plan, st, shard| {
+                st.eval();
+                st.class("mint-history");
+                crate::plan::run_plan(plan, &p3, &mut C01::default(), st, shard)
+            },
+        ));
+    }
+    let rule = "Third phase: histories dense in genuine proof-of-work mints from a low recorded DOSC speed (coins of several ages, consecutive blocks, a fifth of the claims one unit above the reward). Second phase: C16's hand-built scenarios at the edge of the u128 liquidity counter (two fresh tokens, 2-6 deposits of 2^0..2^120 per side, withdrawals), checked for issuance: liquidity tokens handed out in a block <= rise of the pool's counter; coins + reserve of either token <= what was created. First phase: generated histories (2-14 steps quick / 2-40 thorough) on Custom02/Custom08/Testnet/Mainnet: batches of valid-by-construction transactions of every kind (normal, faucet, swap, deposit, withdraw, stake, new token) with dependent transactions inside a batch, shuffled orders, ~15% adversarial mutations, pool keys in canonical and 6 alternative spellings, proposer actions, restarts. Oracle: invariant on the real state read through the cfg(melstf_verif) view: per denomination, coins + pool reserves (+ fee pool + tips for MEL) after a batch <= before + faucet outputs/fee + the transaction's own new token + ERG of mints; after a seal <= before + growth of the pool's recorded liquidity (for liquidity tokens) + the TIP-909 subsidy + the unthrottled peg distance computed by RefSTF. Non-trivial = history with >=1 accepted non-faucet transaction and >=1 seal; distinct by the sequence of coin roots.".to_string();
     (out, rule, None)
 }
 
